@@ -66,3 +66,66 @@ pub proof fn lemma_c02_alternatives_unite(alts: Seq<Vec<BoundSet>>, v: VKey)
         assert(within(f[j], v));
     }
 }
+
+// ===================== C01, per comparator: what a comparator function returns REPRESENTS npm's comparators for the AST it read ==========
+// (function contract: text -> AST and <form>_post(AST, result); these lemmas: <form>_post => `repr` / "nothing satisfies it", outside the two
+// known findings `<M` and `^0`.  With lemma_c01_alternative / lemma_c01_range this is the chain text -> npm semantics, comparator by comparator.)
+pub open spec fn represents(r: Option<BoundSet>, c: CSet) -> bool {
+    match r {
+        Some(b) => bs_wf(b) && repr(b, cset_seq(c)),
+        None => forall|v: VKey| wfk(v) ==> !#[trigger] set_ok(cset_seq(c), v),
+    }
+}
+pub proof fn lemma_shape_represents(r: Option<BoundSet>, c: CSet)
+    requires shape_ok_c(r, c), c is Two ==> ((c->Two_0.op is Ge || c->Two_0.op is Gt) && (c->Two_1.op is Lt || c->Two_1.op is Le)),
+    ensures represents(r, c),
+{
+    match r {
+        Some(b) => { lemma_shape_c_repr(b, c); },
+        None => { assert forall|v: VKey| wfk(v) implies !#[trigger] set_ok(cset_seq(c), v) by { lemma_shape_none_is_empty(c, v); } },
+    }
+}
+pub proof fn lemma_plain_represents(p: Partial, r: Option<BoundSet>)
+    requires wf_partial(p), partial_post(p, r),
+    ensures represents(r, npm_plain_c(p)),
+{
+    cover_plain(p);
+    lemma_shape_represents(r, npm_plain_c(p));
+}
+pub proof fn lemma_tilde_represents(x: (Option<&str>, Partial), r: Option<BoundSet>)
+    requires wf_partial(x.1), tilde_post(x, r),
+    ensures represents(r, npm_tilde_c(x.1)),
+{
+    cover_tilde(x);
+    lemma_shape_represents(r, npm_tilde_c(x.1));
+}
+pub proof fn lemma_caret_represents(p: Partial, r: Option<BoundSet>)
+    requires wf_partial(p), caret_post(p, r),
+        // outside the known finding `^0`
+        !(p.major is Some && p.minor is None && pM(p) == 0),
+    ensures represents(r, npm_caret_c(p)),
+{
+    cover_caret(p);
+    lemma_shape_represents(r, npm_caret_c(p));
+}
+pub proof fn lemma_primitive_represents(x: (Operation, Partial), r: Option<BoundSet>)
+    requires wf_partial(x.1), primitive_post(x, r),
+        // outside the known finding `<M`
+        !(x.0 == Operation::LessThan && x.1.major is Some && x.1.minor is None),
+    ensures represents(r, npm_primitive_c(x.0, x.1)),
+{
+    let c = npm_primitive_c(x.0, x.1);
+    match x.0 {
+        Operation::Exact => { cover_primitive_Exact(x); },
+        Operation::GreaterThan => { cover_primitive_GreaterThan(x); },
+        Operation::GreaterThanEquals => { cover_primitive_GreaterThanEquals(x); },
+        Operation::LessThan => { cover_primitive_LessThan(x); },
+        Operation::LessThanEquals => { cover_primitive_LessThanEquals(x); },
+    }
+    if x.0 == Operation::LessThanEquals && x.1.major is Some && x.1.patch is None {
+        // `<=M`, `<=M.m`: written with MAX_SAFE_INTEGER components, same admitted versions
+        lemma_shape_equiv_repr(r->Some_0, c);
+    } else {
+        lemma_shape_represents(r, c);
+    }
+}
